@@ -8,10 +8,10 @@
     * `advance` bytes are dropped from the window; a non-nil token ends this `Scan` call (it is the next record);
     * without a token (whatever `advance` was): at EOF scanning stops, otherwise more input is read — any positive number of bytes the
       reader happens to return (the *window-growth schedule*) or EOF;
-    * limits that are NOT modelled: the maximal token size (64 KiB for the lines datasource, `ErrTooLong` is
-      returned as an error since the C06 fix) and the 100-empty-reads / 100-empty-tokens-at-EOF guards
-      (never reached: a reader that returns no bytes forever is not a file; the split functions below always
-      advance when they return a token at EOF).
+    * the buffer holds at most `maxTok` bytes (64 KiB for the lines datasource): when more input is needed and the
+      window already fills it, `ErrTooLong` (returned as an error since the C06 fix);
+    * NOT modelled: the 100-empty-reads / 100-empty-tokens-at-EOF guards (never reached: a reader that returns no
+      bytes forever is not a file; the split functions below always advance when they return a token at EOF).
 
   Go                                                      | model
   --------------------------------------------------------|------------------------------
@@ -70,27 +70,32 @@ def scanLines (data : Bytes) (atEOF : Bool) : SplitRes :=
 inductive ScanResult where
   | tokens (ts : List Bytes)
   | advanceTooFar (ts : List Bytes)     -- `ErrAdvanceTooFar` (after the tokens `ts`)
+  | tooLong (ts : List Bytes)           -- `bufio.ErrTooLong` (after the tokens `ts`): the lines datasource returns it
   | outOfFuel
   deriving Repr, DecidableEq
 
 /-- `for sc.Scan() { emit sc.Text() }`.  State: `win` the unconsumed window, `rest` the bytes the reader has not
-    returned yet, `eof` whether the reader has reported EOF, `sched` the sizes (minus one) of the reads to come. -/
-def scanLoop (split : Bytes → Bool → SplitRes) : Nat → Bytes → Bytes → Bool → List Nat → List Bytes → ScanResult
+    returned yet, `eof` whether the reader has reported EOF, `sched` the sizes (minus one) of the reads to come.
+    `maxTok` is the scanner's maximal buffer size (`bufio.MaxScanTokenSize` = 65536 for the lines datasource): a read
+    never makes the window larger than that, and when more input is needed while the window already fills the
+    buffer the scan fails with `ErrTooLong`. -/
+def scanLoop (split : Bytes → Bool → SplitRes) (maxTok : Nat) : Nat → Bytes → Bytes → Bool → List Nat → List Bytes → ScanResult
   | 0, _, _, _, _, _ => .outOfFuel
   | fuel + 1, win, rest, eof, sched, acc =>
     -- "We cannot generate a token with what we are holding": stop at EOF, otherwise read more input
     let readMore : Bytes → ScanResult := fun win =>
       if eof then .tokens acc.reverse
+      else if win.length ≥ maxTok then .tooLong acc.reverse      -- the buffer is full and may not grow
       else match rest with
-        | [] => scanLoop split fuel win [] true sched acc
+        | [] => scanLoop split maxTok fuel win [] true sched acc
         | _ :: _ =>
-          let k := sched.headD 0 + 1
-          scanLoop split fuel (win ++ rest.take k) (rest.drop k) false sched.tail acc
+          let k := min (sched.headD 0 + 1) (maxTok - win.length)
+          scanLoop split maxTok fuel (win ++ rest.take k) (rest.drop k) false sched.tail acc
     if !win.isEmpty || eof then
       let r := split win eof
       if r.advance > win.length then .advanceTooFar acc.reverse
       else match r.token with
-        | some t => scanLoop split fuel (win.drop r.advance) rest eof sched (t :: acc)   -- `return true`
+        | some t => scanLoop split maxTok fuel (win.drop r.advance) rest eof sched (t :: acc)   -- `return true`
         | none => readMore (win.drop r.advance)
     else readMore win
 
@@ -98,8 +103,11 @@ def scanLoop (split : Bytes → Bool → SplitRes) : Nat → Bytes → Bytes →
     or sets `eof` -/
 def scanFuel (content : Bytes) : Nat := 3 * content.length + 4
 
-def scanAll (split : Bytes → Bool → SplitRes) (content : Bytes) (sched : List Nat) : ScanResult :=
-  scanLoop split (scanFuel content) [] content false sched []
+/-- `bufio.MaxScanTokenSize` -/
+def maxScanTokenSize : Nat := 65536
+
+def scanAll (split : Bytes → Bool → SplitRes) (maxTok : Nat) (content : Bytes) (sched : List Nat) : ScanResult :=
+  scanLoop split maxTok (scanFuel content) [] content false sched []
 
 /-! ### Specification: split at every (leftmost, non-overlapping) occurrence of the separator -/
 
@@ -121,5 +129,16 @@ def dropLastEmpty : List Bytes → List Bytes
 
 /-- the records the lines datasource must produce for `content` -/
 def specLines (sep content : Bytes) : List Bytes := dropLastEmpty (splitOn sep content)
+
+/-- every piece, with the separator that ends it, fits the scanner's buffer (the last, unterminated piece must
+    leave room for the read that reports EOF) -/
+def fitsTokF (maxTok : Nat) (sep : Bytes) : Nat → Bytes → Bool
+  | 0, s => decide (s.length < maxTok)
+  | fuel + 1, s =>
+    match indexOf sep s with
+    | some i => decide (i + sep.length ≤ maxTok) && fitsTokF maxTok sep fuel (s.drop (i + sep.length))
+    | none => decide (s.length < maxTok)
+
+def fitsTok (maxTok : Nat) (sep s : Bytes) : Bool := fitsTokF maxTok sep (s.length + 1) s
 
 end Octo.Files
